@@ -474,52 +474,101 @@ func (c *Ctx) TypeID(t types.Type) int {
 
 // Script builds the SMT-LIB text for one obligation instance.
 func (c *Ctx) Script(inst Instance, forModel bool, extra string) string {
-	var sb strings.Builder
-	sb.WriteString("(set-option :produce-models true)\n")
-	sb.WriteString("(set-logic ALL)\n")
-	for _, d := range c.sortDecls {
-		sb.WriteString(d)
-		sb.WriteByte('\n')
-	}
-	sb.WriteString("(declare-const f64_zero F64)\n")
+	var head, body []string
+	head = append(head, "(set-option :produce-models true)", "(set-logic ALL)")
+	head = append(head, c.sortDecls...)
+	head = append(head, "(declare-const f64_zero F64)")
 	if c.usedSpec {
-		sb.WriteString(c.specPrelude)
-		sb.WriteByte('\n')
+		head = append(head, c.specPrelude)
 	}
 	ai := 0
 	for i := 0; i < inst.Prefix; i++ {
 		for ai < inst.NAssum && c.assums[ai].Prefix <= i {
-			fmt.Fprintf(&sb, "(assert %s)\n", c.assums[ai].T.S)
+			body = append(body, "(assert "+c.assums[ai].T.S+")")
 			ai++
 		}
-		sb.WriteString(c.decls[i])
-		sb.WriteByte('\n')
+		body = append(body, c.decls[i])
 	}
 	for ai < inst.NAssum {
-		fmt.Fprintf(&sb, "(assert %s)\n", c.assums[ai].T.S)
+		body = append(body, "(assert "+c.assums[ai].T.S+")")
 		ai++
 	}
 	if forModel {
 		// initial-heap constants first mentioned after this obligation was recorded (model queries and size hints refer to them)
 		for i := inst.Prefix; i < len(c.decls); i++ {
 			if strings.HasPrefix(c.decls[i], "(declare-const heap0_") {
-				sb.WriteString(c.decls[i])
-				sb.WriteByte('\n')
+				body = append(body, c.decls[i])
 			}
 		}
 	}
-	for _, d := range c.lateDecls {
-		sb.WriteString(d)
-		sb.WriteByte('\n')
+	body = append(body, c.lateDecls...)
+	body = append(body, "(assert "+inst.PC.S+")", "(assert (not "+inst.Prop.S+"))")
+	if extra != "" {
+		body = append(body, strings.TrimRight(extra, "\n"))
 	}
-	fmt.Fprintf(&sb, "(assert %s)\n", inst.PC.S)
-	fmt.Fprintf(&sb, "(assert (not %s))\n", inst.Prop.S)
-	sb.WriteString(extra)
-	sb.WriteString("(check-sat)\n")
+	body = append(body, "(check-sat)")
 	if forModel {
-		sb.WriteString(getValueCmd(c.queries))
+		if gv := getValueCmd(c.queries); gv != "" {
+			body = append(body, strings.TrimRight(gv, "\n"))
+		}
 	}
-	return sb.String()
+	body = pruneDefinitions(body)
+	return strings.Join(head, "\n") + "\n" + strings.Join(body, "\n") + "\n"
+}
+
+// pruneDefinitions drops the define-fun / declare-const lines that nothing in the query refers to (directly or through
+// other definitions). Large unused definitions (constant tables of read-only globals, heaps of untaken paths) cost the
+// solvers real time although they cannot affect the answer.
+func pruneDefinitions(lines []string) []string {
+	defLine := map[string]int{}
+	for i, l := range lines {
+		if strings.HasPrefix(l, "(define-fun ") || strings.HasPrefix(l, "(declare-const ") {
+			rest := l[strings.Index(l, " ")+1:]
+			if k := strings.IndexAny(rest, " )"); k > 0 {
+				defLine[rest[:k]] = i
+			}
+		}
+	}
+	keep := make([]bool, len(lines))
+	var work []int
+	isDef := func(i int) bool {
+		return strings.HasPrefix(lines[i], "(define-fun ") || strings.HasPrefix(lines[i], "(declare-const ")
+	}
+	for i := range lines {
+		if !isDef(i) {
+			keep[i] = true
+			work = append(work, i)
+		}
+	}
+	for len(work) > 0 {
+		i := work[len(work)-1]
+		work = work[:len(work)-1]
+		l := lines[i]
+		start := -1
+		for k := 0; k <= len(l); k++ {
+			delim := k == len(l) || l[k] == ' ' || l[k] == '(' || l[k] == ')' || l[k] == '\n' || l[k] == '\t'
+			if !delim {
+				if start < 0 {
+					start = k
+				}
+				continue
+			}
+			if start >= 0 {
+				if di, ok := defLine[l[start:k]]; ok && !keep[di] {
+					keep[di] = true
+					work = append(work, di)
+				}
+				start = -1
+			}
+		}
+	}
+	out := make([]string, 0, len(lines))
+	for i, l := range lines {
+		if keep[i] {
+			out = append(out, l)
+		}
+	}
+	return out
 }
 
 func (c *Ctx) SortedNotes() []string {
